@@ -63,7 +63,7 @@ func checkpointPublishers(p *Program) []*Func {
 
 func checkpointUploads(f *Func) []Site {
 	var out []Site
-	for _, s := range f.Calls(specUpload) {
+	for _, s := range f.CallsW(specUpload) {
 		if isCheckpointUpload(f, s.Call) {
 			out = append(out, s)
 		}
@@ -79,7 +79,7 @@ func c01a(c *Ctx) {
 	}
 	for _, f := range pubs {
 		ups := checkpointUploads(f)
-		locks := f.Calls(specLockRepl, specLockCrea)
+		locks := f.CallsW(specLockRepl, specLockCrea)
 		if !c.requireGate(f.Name, f, locks, OutNil, ups, "checkpoint upload after lock commit") {
 			continue
 		}
@@ -161,7 +161,10 @@ func c01b(c *Ctx) {
 		if f.Body == nil {
 			continue
 		}
-		for _, s := range f.Calls(specUpload) {
+		if c.P.isWrapperOf(f, specUpload) {
+			continue // classified at its call sites
+		}
+		for _, s := range f.CallsW(specUpload) {
 			n++
 			c.touch(f)
 			key := argByName(f.Info(), s.Call, "key")
@@ -288,7 +291,7 @@ func c01c(c *Ctx) {
 		// the time that is signed is ts
 		hth := f.Calls(Callee{pkgCtlog, "", "hashTreeHead"})
 		sign := f.Calls(Callee{pkgCtlog, "", "signTreeHead"})
-		repl := f.Calls(specLockRepl)
+		repl := f.CallsW(specLockRepl)
 		if len(hth) != 1 || len(sign) != 1 || len(repl) == 0 {
 			c.Unk(f.Name+" anchors", fmt.Sprintf("expected one hashTreeHead and one signTreeHead call, found %d/%d", len(hth), len(sign)))
 			continue
@@ -395,7 +398,7 @@ func c01d(c *Ctx) {
 			nIn++
 			f := st.F
 			g := f.Graph()
-			succ, _ := gateEdges(f.Calls(specLockRepl), OutNil)
+			succ, _ := gateEdges(f.CallsW(specLockRepl), OutNil)
 			cut := Cut{Edges: succ}
 			if pt, _ := g.ReachableFromEntry(cut, atSite(st.Site)); pt == nil {
 				c.add(Result{Instance: inst, Verdict: Discharged, Sites: []string{st.Pos()}, Detail: "store only reachable through the success edge of Replace", Witnesses: f.WitEdges(succ)})
@@ -430,7 +433,7 @@ func c01e(c *Ctx) {
 	for _, f := range sequencers(c.P) {
 		c.touch(f)
 		recv := f.recvObj()
-		for _, s := range f.Calls(specLockRepl) {
+		for _, s := range f.CallsW(specLockRepl) {
 			old := argByName(f.Info(), s.Call, "old")
 			inst := f.Name + " Replace.old"
 			base, ok := fieldSel(f.Info(), old, pkgCtlog, "Log", "lockCheckpoint")
@@ -449,7 +452,7 @@ func c01e(c *Ctx) {
 			c.Bad(inst, st.Pos(), "lockCheckpoint is modified other than by plain assignment")
 			continue
 		}
-		if _, ok := f.IsCallResult(st.Rhs, 0, specLockRepl); ok {
+		if _, ok := f.IsCallResultW(st.Rhs, 0, specLockRepl); ok {
 			c.OK(inst, "assigned from the result of Replace", []string{st.Pos()})
 		} else {
 			c.Bad(inst, st.Pos(), "lockCheckpoint assigned from "+exprString(st.Rhs)+", not from the result of LockBackend.Replace")
@@ -582,7 +585,7 @@ func c01h(c *Ctx) {
 	for _, f := range sequencers(c.P) {
 		c.touch(f)
 		g := f.Graph()
-		for _, s := range f.Calls(specLockRepl) {
+		for _, s := range f.CallsW(specLockRepl) {
 			inst := f.Name + " Replace error edge"
 			_, nonNil, _, ok := OutcomeEdges(s)
 			if !ok || len(nonNil) == 0 {
